@@ -16,6 +16,9 @@ Contract.  Spec function: the uncached compilation
       the (statement, parameters) that the real DefaultExecutionContext._init_compiled hands to cursor.execute
       (post-compile expansion of IN / literal_execute, bind processors, positional assembly) equal
       an exception on one side <=> the same exception type on the other
+    SQL text, parameter keys and bind names are compared modulo a consistent renaming of bind-parameter names (bind names
+    canonicalised in order of compilation): a `unique` bind's name is deliberately not part of the cache key
+    (BindParameter._gen_cache_key uses the anon-map position), so `:p_1` vs `:param_1` is the same statement.
 (K2, 2-safety on the key)  key(a) == key(b)  =>  fresh(a).string == fresh(b).string and equal bind types, for all
     pairs of the scope (checked per equal-key group, every member against the first).
 
@@ -72,7 +75,7 @@ def call_args(desc):
     if names:
         psets.append(dict(names))
     ck = []
-    if desc.get("k") in ("insert", "update") and not any(desc.get(x) is not None for x in ("values", "mvalues", "from_select", "ordered", "cvalues")):
+    if desc.get("k") in ("insert", "update") and not any(desc.get(x) for x in ("values", "mvalues", "from_select", "ordered", "cvalues")):
         ck = ["s", "x"]
         psets = [{"x": 5, "s": "k"}]
     return ck, psets
@@ -86,23 +89,50 @@ def _exc(e):
     return ("EXC", type(e).__name__, _HEX.sub("0x", str(e))[:160])
 
 
+def _canon(compiled):
+    """(string renamer, key renamer): bind names -> b0, b1, ... in order of compilation"""
+    names = list(dict.fromkeys(compiled.bind_names.values()))
+    esc = getattr(compiled, "escaped_bind_names", None) or {}
+    canon = {}
+    for i, n in enumerate(names):
+        canon[n] = "b%d" % i
+        canon[esc.get(n, n)] = "b%d" % i
+    if not canon:
+        return (lambda t: t), (lambda k: k)
+    alt = "|".join(re.escape(n) for n in sorted(canon, key=len, reverse=True))
+    rx = re.compile(r"(?P<pre>(?<!:):|%\(|__\[POSTCOMPILE_)(?P<n>" + alt + r")(?P<suf>(?:_\d+)*)(?![A-Za-z0-9_])")
+    krx = re.compile(r"^(?P<n>" + alt + r")(?P<suf>(?:_\d+)*)$")
+
+    def rs(t):
+        return rx.sub(lambda m_: m_.group("pre") + canon[m_.group("n")] + m_.group("suf"), t) if isinstance(t, str) else t
+
+    def rk(k):
+        m_ = krx.match(k) if isinstance(k, str) else None
+        return canon[m_.group("n")] + m_.group("suf") if m_ else k
+    return rs, rk
+
+
+_ANON = re.compile(r"%\(\d+ ")
+
+
 def _view(dialect, compiled, stmt, ext, pd, hit, psets):
-    obs = {"string": compiled.string}
-    obs["types"] = sorted((name, repr(bp.type)) for bp, name in compiled.bind_names.items())
+    rs, rk = _canon(compiled)
+    obs = {"string": rs(compiled.string)}
+    obs["types"] = sorted((rk(name), repr(bp.type)) for bp, name in compiled.bind_names.items())
     try:
-        obs["result_map"] = [(rc.keyname, rc.name, repr(rc.type)) for rc in compiled._result_columns]
+        obs["result_map"] = [(_ANON.sub("%(N ", str(rc.keyname)), _ANON.sub("%(N ", str(rc.name)), repr(rc.type)) for rc in compiled._result_columns]
     except Exception as e:  # noqa: BLE001
         obs["result_map"] = _exc(e)
     for n, p in enumerate(psets):
         try:
             cp = compiled.construct_params(dict(p) if p else None, extracted_parameters=ext, escape_names=False, _collected_params=pd)
-            obs["params%d" % n] = sorted((k, repr(v)) for k, v in cp.items())
+            obs["params%d" % n] = sorted((rk(k), repr(v)) for k, v in cp.items())
             obs["positional%d" % n] = [repr(cp[k]) for k in compiled.positiontup] if compiled.positional and compiled.positiontup is not None else None
         except Exception as e:  # noqa: BLE001
             obs["params%d" % n] = _exc(e)
         try:
             st, pr = C.dbapi_call(dialect, compiled, stmt, dict(p) if p else None, ext, pd, hit)
-            obs["dbapi%d" % n] = (st, repr(sorted(pr.items()) if isinstance(pr, dict) else pr))
+            obs["dbapi%d" % n] = (rs(st), repr(sorted((rk(k), v) for k, v in pr.items()) if isinstance(pr, dict) else pr))
         except Exception as e:  # noqa: BLE001
             obs["dbapi%d" % n] = _exc(e)
     return obs
@@ -162,181 +192,244 @@ def _absval(v):
     return type(v).__name__
 
 
-def _worker(shard, nshards, tier, seed):
-    from sqlalchemy.sql import visitors
-    from sqlalchemy.util import LRUCache
+def key_digest(k):
+    """process-independent digest of a CacheKey (only used to *propose* equal-key groups across worker processes; the
+    worker re-groups each proposal by real CacheKey equality before judging anything)"""
+    from sqlalchemy import Table, Column
+
+    def canon(o):
+        if isinstance(o, tuple):
+            return "(" + ",".join(canon(x) for x in o) + ")"
+        if isinstance(o, (str, int, float, bool, type(None))):
+            return repr(o)
+        if isinstance(o, type):
+            return o.__module__ + "." + o.__qualname__
+        if isinstance(o, Table):
+            return "T:" + o.fullname
+        if isinstance(o, Column):
+            return "C:" + str(o)
+        if isinstance(o, (set, frozenset)):
+            return "{" + ",".join(sorted(canon(x) for x in o)) + "}"
+        return _HEX.sub("0x", repr(o))
+    return hashlib.md5(canon(k.key).encode()).hexdigest()
+
+
+def _phase1(shard, nshards, tier, seed):
+    """build this shard's descriptors (+ variants of its share of the variant sources); return [(json, digest|None)]"""
     base, vsrc = scope_descs(tier, seed)
-    alld = list(base)
-    seen = {C.dj(d) for d in alld}
-    nvar = 0
-    for d in vsrc:
-        for v in C.variants(d):
-            j = C.dj(v)
-            if j not in seen:
-                seen.add(j)
-                alld.append(v)
-                nvar += 1
-    stmts, keys = [], []
-    rejected = 0
-    for d in alld:
+    out, rejected = [], 0
+
+    def add(d, origin):
+        nonlocal rejected
         s, e = C.try_build(d)
         if e is not None:
             rejected += 1
-            stmts.append(None)
-            keys.append(None)
-            continue
-        stmts.append(s)
+            return
         try:
             k = s._generate_cache_key()
-            keys.append(k.key if k is not None else None)
+            out.append((C.dj(d), key_digest(k) if k is not None else None, origin))
         except Exception as e2:  # noqa: BLE001
-            keys.append(("KEYEXC", type(e2).__name__))
-    groups, nokey = {}, []
-    for i, k in enumerate(keys):
-        if stmts[i] is None:
-            continue
-        if k is None:
-            nokey.append(i)
-        else:
-            groups.setdefault(k, []).append(i)
-    glist = sorted(groups.values(), key=lambda g: g[0])
-    out = dict(evals=0, failures=[], sql=set(), nstmts=sum(1 for s in stmts if s is not None), nkeys=len(groups), nokey=len(nokey), rejected=rejected, nvar=nvar,
-               nbase=len(base), groups_multi=sum(1 for g in glist if len(g) > 1), largest_group=max(len(g) for g in glist), hits=0, misses=0, samples=[],
-               cov={}, pairs=0, k2_pairs=0)
+            out.append((C.dj(d), "KEYEXC:" + type(e2).__name__, origin))
+    for i, d in enumerate(base):
+        if i % nshards == shard:
+            add(d, 0)
+    for i, d in enumerate(vsrc):
+        if i % nshards == shard:
+            for m in C._mut(d):
+                add(m, 1)
+    return out, rejected, len(base), len(vsrc)
+
+
+_GROUPS = []          # set in the parent before the phase-2 workers are forked: list of lists of descriptors
+
+
+def _phase2(shard, nshards, tier, seed):
+    from sqlalchemy.sql import visitors
+    from sqlalchemy.util import LRUCache
+    out = dict(evals=0, failures=[], sql=set(), hits=0, misses=0, samples=[], cov={}, pairs=0, k2_pairs=0, nkeys=0, groups_multi=0, largest_group=0, split=0)
     dialects = [(dn, C.get_dialect(dn)) for dn in DIALECTS]
+    lru_order = []
 
-    def fail(clause, dn, seq, step, clauses, cv, fv, extra=None):
-        bad = clauses[0] if clauses else clause
-        out["failures"].append(dict(function="%s.%s:%s" % (clause, re.sub(r"\d+$", "", bad), dn),
-                                    input=dict(dialect=dn, sequence=[alld[i] for i in seq], step=step), differing_clauses=clauses,
-                                    expected=json.loads(json.dumps({k: fv.get(k) for k in clauses[:3]}, default=repr)),
-                                    actual=json.loads(json.dumps({k: cv.get(k) for k in clauses[:3]}, default=repr)), **(extra or {})))
-
-    mine = [g for gi, g in enumerate(glist) if gi % nshards == shard]
-    fresh_memo = {}
-
-    def fresh(i, dn, d):
-        k = (i, dn)
-        if k not in fresh_memo:
-            ck, psets = call_args(alld[i])
-            fresh_memo[k] = fresh_view(d, stmts[i], ck, psets)
-            if "string" in fresh_memo[k]:
-                out["sql"].add(hashlib.md5((dn + fresh_memo[k]["string"]).encode()).digest()[:8])
-        return fresh_memo[k]
-
-    def step(i, dn, d, cache, seq, pos):
-        ck, psets = call_args(alld[i])
-        cv, hit = cached_view(d, stmts[i], cache, ck, psets)
-        out["evals"] += 1
-        out["hits" if hit == "CACHE_HIT" else "misses"] += 1
-        fv = fresh(i, dn, d)
-        df = diff(cv, fv)
-        if df:
-            fail("cached_vs_fresh", dn, seq, pos, df, cv, fv, dict(cache_state=hit))
-        return hit
-
-    for g in mine:
-        # class / attribute coverage (measured on what this shard owns)
-        for i in g:
+    for gi in range(shard, len(_GROUPS), nshards):
+        descs = _GROUPS[gi]
+        stmts = [C.build(d) for d in descs]
+        # re-group by the real key (digest groups are only proposals)
+        real = {}
+        for i, s in enumerate(stmts):
             try:
-                for el in visitors.iterate(stmts[i]):
-                    cls = type(el)
-                    for attr, _ in getattr(cls, "_traverse_internals", ()) or ():
-                        vals = out["cov"].setdefault(cls.__name__ + "." + attr, set())
-                        if len(vals) < 3:
-                            vals.add(_absval(getattr(el, attr, None)))
-            except Exception:  # noqa: BLE001
-                pass
-        members = g[:6]
-        extra = g[6:30]
-        for dn, d in dialects:
-            # K2: equal key => equal fresh SQL and types
-            f0 = fresh(g[0], dn, d)
-            for j in g[1:30]:
-                fj = fresh(j, dn, d)
-                out["evals"] += 1
-                out["k2_pairs"] += 1
-                df = [k for k in ("string", "types", "compile") if f0.get(k) != fj.get(k)]
-                if df:
-                    fail("equal_key_different_sql", dn, [g[0], j], 1, df, fj, f0)
-            # K1: every cache state
-            if len(g) == 1:
-                cache = LRUCache(100)
-                step(g[0], dn, d, None, [g[0]], 0)                      # caching disabled
-                step(g[0], dn, d, cache, [g[0], g[0]], 0)               # cold
-                step(g[0], dn, d, cache, [g[0], g[0]], 1)               # warm with itself
-            else:
-                pairs = [(i, j) for i in members for j in members if i != j] + [(members[0], j) for j in extra] + [(j, members[0]) for j in extra]
-                for i, j in pairs:
-                    cache = LRUCache(100)
-                    out["pairs"] += 1
-                    seq = [i, j, i]
-                    step(i, dn, d, cache, seq, 0)
-                    step(j, dn, d, cache, seq, 1)                       # warm with an equal-key sibling
-                    step(i, dn, d, cache, seq, 2)
-                if len(members) >= 3:
-                    for perm in itertools.islice(itertools.permutations(members[:4], 3), 24):
-                        cache = LRUCache(100)
-                        for pos, i in enumerate(perm):
-                            step(i, dn, d, cache, list(perm), pos)
-    # shared small LRU with evictions: this shard's statements, two passes in seed order
-    order = [i for g in mine for i in g[:3]] + [i for n, i in enumerate(nokey) if n % nshards == shard]
-    random.Random(seed + shard).shuffle(order)
+                k = s._generate_cache_key()
+            except Exception:  # noqa: BLE001  (judged by C22; here both paths must fail alike)
+                k = None
+            real.setdefault(k.key if k is not None else ("NOKEY", i), []).append(i)
+        if len(real) > 1:
+            out["split"] += 1
+        for g in real.values():
+            out["nkeys"] += 1
+            out["groups_multi"] += len(g) > 1
+            out["largest_group"] = max(out["largest_group"], len(g))
+            _judge_group(out, dialects, descs, stmts, g, LRUCache, visitors)
+            lru_order += [(descs[i], stmts[i]) for i in g[:2]]
+            if len(g) > 1 and len(out["samples"]) < 1:
+                out["samples"].append(dict(equal_key_group=[descs[i] for i in g[:3]], sql_default=fresh_view(dialects[0][1], stmts[g[0]], *call_args(descs[g[0]])).get("string")))
+    # a small LRU shared by many different statements (evictions), one pass in seed order
+    random.Random(seed + shard).shuffle(lru_order)
     for dn, d in dialects:
         cache = LRUCache(20)
-        for rnd in range(2):
-            for n, i in enumerate(order):
-                step(i, dn, d, cache, order[max(0, n - 2):n + 1], min(n, 2))
-    for g in mine[:2]:
-        if len(g) > 1 and len(out["samples"]) < 2:
-            out["samples"].append(dict(equal_key_group=[alld[i] for i in g[:3]], sql=fresh(g[0], "default", dialects[0][1]).get("string")))
+        for n, (desc, s) in enumerate(lru_order):
+            ck, psets = call_args(desc)
+            cv, hit = cached_view(d, s, cache, ck, psets)
+            fv = fresh_view(d, s, ck, psets)
+            out["evals"] += 1
+            out["hits" if hit == "CACHE_HIT" else "misses"] += 1
+            df = diff(cv, fv)
+            if df:
+                seq = [x[0] for x in lru_order[max(0, n - 31):n + 1]]       # LRUCache(20) holds at most 30 entries
+                try:                                                        # minimal replay: the statement that populated the entry
+                    kk = s._generate_cache_key().key
+                    for pdesc, ps in reversed(lru_order[:n]):
+                        pk = ps._generate_cache_key()
+                        if pk is not None and pk.key == kk:
+                            seq = [pdesc, desc]
+                            break
+                except Exception:  # noqa: BLE001
+                    pass
+                _fail(out, "cached_vs_fresh", dn, seq, len(seq) - 1, df, cv, fv, dict(cache_state=hit, lru=20))
     out["sql"] = list(out["sql"])
     out["cov"] = {k: sorted(v) for k, v in out["cov"].items()}
     return out
 
 
+def _fail(out, clause, dn, seq_descs, step, clauses, cv, fv, extra=None):
+    bad = clauses[0] if clauses else clause
+    out["failures"].append(dict(function="%s.%s:%s" % (clause, re.sub(r"\d+$", "", bad), dn),
+                                input=dict(dialect=dn, sequence=seq_descs, step=step), differing_clauses=clauses,
+                                expected=json.loads(json.dumps({k: fv.get(k) for k in clauses[:3]}, default=repr)),
+                                actual=json.loads(json.dumps({k: cv.get(k) for k in clauses[:3]}, default=repr)), **(extra or {})))
+
+
+def _judge_group(out, dialects, descs, stmts, g, LRUCache, visitors):
+    for i in g:
+        try:
+            for el in visitors.iterate(stmts[i]):
+                cls = type(el)
+                for attr, _ in getattr(cls, "_traverse_internals", ()) or ():
+                    vals = out["cov"].setdefault(cls.__name__ + "." + attr, set())
+                    if len(vals) < 3:
+                        vals.add(_absval(getattr(el, attr, None)))
+        except Exception:  # noqa: BLE001
+            pass
+    members, extra = g[:6], g[6:30]
+    for di, (dn, d) in enumerate(dialects):
+        memo = {}
+
+        def fresh(i):
+            if i not in memo:
+                memo[i] = fresh_view(d, stmts[i], *call_args(descs[i]))
+                if "string" in memo[i]:
+                    out["sql"].add(hashlib.md5((dn + memo[i]["string"]).encode()).digest()[:8])
+            return memo[i]
+
+        def step(i, cache, seq, pos):
+            ck, psets = call_args(descs[i])
+            cv, hit = cached_view(d, stmts[i], cache, ck, psets)
+            out["evals"] += 1
+            out["hits" if hit == "CACHE_HIT" else "misses"] += 1
+            df = diff(cv, fresh(i))
+            if df:
+                _fail(out, "cached_vs_fresh", dn, [descs[x] for x in seq], pos, df, cv, fresh(i), dict(cache_state=hit))
+        # K2: equal key => equal fresh SQL and bind types
+        f0 = fresh(g[0])
+        for j in g[1:30]:
+            fj = fresh(j)
+            out["evals"] += 1
+            out["k2_pairs"] += 1
+            df = [k for k in ("string", "types", "compile") if f0.get(k) != fj.get(k)]
+            if df:
+                _fail(out, "equal_key_different_sql", dn, [descs[g[0]], descs[j]], 1, df, fj, f0)
+        # K1: every cache state
+        if len(g) == 1:
+            i = g[0]
+            cache = LRUCache(100)
+            if (out["nkeys"] + di) % 3 == 0:
+                step(i, None, [i], 0)                                   # caching disabled
+            step(i, cache, [i, i], 0)                                   # cold
+            step(i, cache, [i, i], 1)                                   # warm with itself
+        else:
+            pairs = [(i, j) for i in members for j in members if i != j] + [(members[0], j) for j in extra] + [(j, members[0]) for j in extra]
+            for i, j in pairs:
+                cache = LRUCache(100)
+                out["pairs"] += 1
+                seq = [i, j, i]
+                for pos, x in enumerate(seq):                           # cold / warm with an equal-key sibling / warm
+                    step(x, cache, seq, pos)
+            if len(members) >= 3:
+                for perm in itertools.islice(itertools.permutations(members[:4], 3), 24):
+                    cache = LRUCache(100)
+                    for pos, x in enumerate(perm):
+                        step(x, cache, list(perm), pos)
+
+
 def run(run, tier, seed, args):
-    res = C.shard_run(_worker, 32, (tier, seed))
-    sql = set()
-    failures = []
-    cov = {}
-    tot = dict(evals=0, hits=0, misses=0, pairs=0, k2_pairs=0)
-    samples = []
+    global _GROUPS
+    p1 = C.shard_run(_phase1, 32, (tier, seed))
+    seen, by_digest, nokey = set(), {}, []
+    rejected = nvar = 0
+    for lst, rej, nbase, nvsrc in p1:
+        rejected += rej
+        for j, dg, origin in lst:
+            if j in seen:
+                continue
+            seen.add(j)
+            nvar += origin
+            if dg is None:
+                nokey.append([json.loads(j)])
+            else:
+                by_digest.setdefault(dg, []).append(json.loads(j))
+    _GROUPS = sorted(by_digest.values(), key=lambda g: C.dj(g[0])) + nokey
+    for g in _GROUPS:
+        g.sort(key=C.dj)
+    res = C.shard_run(_phase2, 64, (tier, seed))
+    sql, failures, cov, samples = set(), [], {}, []
+    tot = dict(evals=0, hits=0, misses=0, pairs=0, k2_pairs=0, nkeys=0, groups_multi=0, split=0)
+    largest = 0
     for r in res:
         sql.update(r["sql"])
         failures += r["failures"]
         samples += r["samples"]
+        largest = max(largest, r["largest_group"])
         for k in tot:
             tot[k] += r[k]
         for k, v in r["cov"].items():
             cov.setdefault(k, set()).update(v)
-    r0 = res[0]
     C.report(run, failures)
     varied = sorted(k for k, v in cov.items() if len(v) > 1)
     constant = sorted(k for k, v in cov.items() if len(v) <= 1)
     run.coverage.update(
         evaluations=tot["evals"],
-        distinct_nontrivial=r0["nkeys"],
+        distinct_nontrivial=tot["nkeys"] - len(nokey),
         rule="statements = corpus descriptors + single-site near-collision variants; each is compiled through _compile_w_cache in every cache state "
-             "(disabled, cold, warm with itself, warm with each equal-key sibling in both orders, permutations of 3 siblings, a 20-entry LRU shared by "
-             "many statements with evictions) and compared clause by clause with the uncached compilation; distinct_nontrivial = number of distinct "
-             "cache keys among the statements (counted by hashing CacheKey.key); distinct SQL strings are in coverage.distinct_sql",
-        samples=samples[:3] or [dict(note="no equal-key group in the first shards")],
+             "(disabled [every third], cold, warm with itself, warm with each equal-key sibling in both orders, permutations of 3 siblings, a 20-entry LRU "
+             "shared by many statements with evictions) and compared clause by clause with the uncached compilation; distinct_nontrivial = number of "
+             "distinct cache keys among the statements (groups by real CacheKey equality, counted); distinct SQL strings are in coverage.distinct_sql",
+        samples=samples[:3] or [dict(note="no equal-key group sampled")],
         exhaustive=True,
         scope="statement corpus depth %d without DDL (%d descriptors) + %d near-collision variants (every buildable single-site mutation of %s) = %d statements, "
               "%d distinct cache keys, %d without a key; %d equal-key groups with >= 2 members (largest %d; all ordered pairs among the first 6 members, further "
               "members against the first, up to 30); dialects %s; parameter sets {compiled-in values, override of every named bind}"
-              % (2 if tier == "quick" else 3, r0["nbase"], r0["nvar"], "the depth-1 corpus and the representative clause statements" if tier == "quick" else "the depth-2 corpus",
-                 r0["nstmts"], r0["nkeys"], r0["nokey"], r0["groups_multi"], r0["largest_group"], list(DIALECTS)),
+              % (2 if tier == "quick" else 3, p1[0][2], nvar, "the depth-1 corpus and the representative clause statements" if tier == "quick" else "the depth-2 corpus",
+                 len(seen), tot["nkeys"] - len(nokey), len(nokey), tot["groups_multi"], largest, list(DIALECTS)),
         distinct_sql=len(sql), cache_hits=tot["hits"], cache_misses_or_disabled=tot["misses"], sibling_sequences=tot["pairs"], equal_key_pairs_compared=tot["k2_pairs"],
-        rejected_by_constructors=r0["rejected"],
+        rejected_by_constructors=rejected, digest_groups_split_by_real_key=tot["split"],
         traverse_internals=dict(class_attributes_reached=len(cov), varied_in_scope=len(varied), constant_in_scope=len(constant),
-                                classes=sorted({k.split(".")[0] for k in cov}), constant_attributes=constant[:120]))
+                                classes=sorted({k.split(".")[0] for k in cov}), constant_attributes=constant[:150]))
     run.assumptions += [
         "observation = SQL text, construct_params, positional tuple, bind types, result-map keys and the (statement, parameters) assembled by the real "
         "_init_compiled on a stub connection; result rows (the backend) are outside",
-        "near-collision variants are the mechanical single-site mutations of rtc/corpus.variants; attributes listed under traverse_internals.constant_attributes "
+        "equality is modulo a consistent renaming of bind-parameter names (unique binds are keyed by position, not by name, by design)",
+        "near-collision variants are the mechanical single-site mutations of rtc/corpus._mut; attributes listed under traverse_internals.constant_attributes "
         "never took two values in this scope, so an omission of one of those from a cache key would not be seen",
+        "equal-key groups are proposed across processes by a digest of CacheKey.key and re-grouped by real key equality in the worker; statements whose "
+        "equal keys digest differently (reprs carrying object ids) are only compared within their own process group",
         "bounded exploration, not a proof",
     ]
 
